@@ -208,9 +208,7 @@ Fixpoint docs_mism AN SN (ds : list (node * list dcase)) (i : N) : list (N * N *
 Definition mismatches (AN SN : list bytes) (base : N) (ds : list (node * list dcase)) : list (N * N * N) :=
   docs_mism AN SN ds base.
 
-(* ---------- histories of reads and writes through one element wrapper
-   (kind 70; 170 when the observation equals the mirror of RemoveAttribute
-   without invalidation of the parsed styles) *)
+(* ---------- histories of reads and writes through one element wrapper (kind 70) *)
 Definition leb_kv (a b : bytes * bytes) : bool := leb_bytes (fst a) (fst b).
 Definition leb_ka (a b : bytes * aval) : bool := leb_bytes (fst a) (fst b).
 Definition pairs_oval (d : decls) : oval := OL (map (fun kv => OL [OS (fst kv); OS (snd kv)]) (isort leb_kv d)).
@@ -247,11 +245,7 @@ Definition hist_mism (ds : list (node * list dcase)) (base : N) (hc : hcase) : l
               let n := est_of (l_h m) in
               match first_diff obs (map rd_oval (w_run true ops (fresh n))) 0%N with
               | None => []
-              | Some k =>
-                  match first_diff obs (map rd_oval (w_run false ops (fresh n))) 0%N with
-                  | None => [(170, base + di, j * 100 + k)%N]
-                  | Some _ => [(70, base + di, j * 100 + k)%N]
-                  end
+              | Some k => [(70, base + di, j * 100 + k)%N]
               end
           end
       end
